@@ -279,7 +279,57 @@ func ruleDrain(c *Ctx, a *tcpAnchors) {
 			dq := drainQ(c, isSrc)
 			succ, fail := p.SuccessEdges(f, []ssa.CallInstruction{call}, 1)
 			if len(fail) == 0 {
-				c.CheckAt("DRAIN", short(f)+":relay-copy-error-tested", call, false, "the error of the client-to-target copy is not tested, so a stream that turns invalid is closed at once instead of drained")
+				// the test may live in a helper that is handed the error and the connection (drainOnRelayError(err, src)):
+				// on its err != nil edge it drains that connection before closing anything, and it is called before any close
+				okHelper := false
+				var copyErr ssa.Value
+				for _, r := range *call.Referrers() {
+					if ex, isEx := r.(*ssa.Extract); isEx && ex.Index == 1 {
+						copyErr = ex
+					}
+				}
+				for _, cl2 := range eng.Calls(f) {
+					hc, isCall := cl2.(*ssa.Call)
+					if !isCall || copyErr == nil {
+						continue
+					}
+					h := hc.Call.StaticCallee()
+					if h == nil || !p.InRepo(h) || len(h.Blocks) == 0 {
+						continue
+					}
+					ei, si := -1, -1
+					for i, ar := range hc.Call.Args {
+						if p.AnyFrom(ar, eng.Plain, func(v ssa.Value) bool { return v == copyErr }) {
+							ei = i
+						}
+						if isSrc(ar) {
+							si = i
+						}
+					}
+					if ei < 0 || si < 0 || ei >= len(h.Params) || si >= len(h.Params) {
+						continue
+					}
+					_, nonNil := p.NilEdges(h, func(v ssa.Value) bool { return v == ssa.Value(h.Params[ei]) })
+					if len(nonNil) == 0 {
+						continue
+					}
+					hq := drainQ(c, func(v ssa.Value) bool {
+						return p.AnyFrom(v, eng.Plain, func(x ssa.Value) bool { return x == ssa.Value(h.Params[si]) })
+					})
+					all := true
+					for _, e := range sortedEdges(nonNil) {
+						if ok, _ := eng.MustPassBefore(edgePoint(e), hq, isCloseLike); !ok {
+							all = false
+						}
+					}
+					if !all {
+						continue
+					}
+					if ok, _ := eng.MustPassBefore(eng.After(call), func(i ssa.Instruction) bool { return i == ssa.Instruction(hc) }, isCloseLike); ok {
+						okHelper = true
+					}
+				}
+				c.CheckAt("DRAIN", short(f)+":relay-copy-error-tested", call, okHelper, "the error of the client-to-target copy is not tested, so a stream that turns invalid is closed at once instead of drained")
 				continue
 			}
 			// nothing is closed between the copy and the examination of its error either (a FIN sent to the target there
